@@ -419,6 +419,34 @@ func parsePBSeqCases(env *core.Env, emitted []core.Case) []core.Case {
 	return res
 }
 
+// parseCardSeqCases: the constraint sequences of ParseCard.tla through the cardinality front end
+// (ParseCardConstrs) and, for a third of them, through the PB front end with unit weights.
+func parseCardSeqCases(env *core.Env, emitted []core.Case) []core.Case {
+	if max := env.Pick(5000, 90000); len(emitted) > max { // a seeded sample of the enumerated sequences
+		env.Rand.Shuffle(len(emitted), func(i, j int) { emitted[i], emitted[j] = emitted[j], emitted[i] })
+		emitted = emitted[:max]
+	}
+	var res []core.Case
+	for i, e := range emitted {
+		var cons []gen.M
+		l, _ := e["cons"].([]any)
+		for _, x := range l {
+			c, _ := x.(map[string]any)
+			cons = append(cons, gen.Ctor("atleast", toInts(c["lits"]), nil, int(c["d"].(float64))))
+		}
+		front := "card"
+		if i%3 == 2 {
+			front = "pb"
+		}
+		ev := []gen.M{gen.Op("count")}
+		if i%5 == 0 {
+			ev = []gen.M{gen.Op("solve")}
+		}
+		res = append(res, gen.APICase(front, int(e["n"].(float64)), false, cons, false, nil, gen.Cfg(false, 0, 0, false, false, true), ev))
+	}
+	return res
+}
+
 func allOnes(w []int) bool {
 	for _, x := range w {
 		if x != 1 {
@@ -437,6 +465,10 @@ func init() {
 			{Name: "normalize", Module: "Normalize", Cfg: "Normalize_quick.cfg", Tier: "quick", Workers: 4, XmxMB: 4000, Timeout: 10 * time.Minute, ToCases: normalizeCases},
 			{Name: "normalize", Module: "Normalize", Cfg: "Normalize_thorough.cfg", Tier: "thorough", Workers: 16, XmxMB: 8000, Timeout: 30 * time.Minute, ToCases: normalizeCases},
 			{Name: "pbprop", Module: "PBProp", Cfg: "PBProp.cfg", Workers: 6, XmxMB: 4000, Timeout: 10 * time.Minute},
+			{Name: "parse-card", Module: "ParseCard", Cfg: "ParseCard_deep.cfg", Tier: "thorough", Workers: 8, XmxMB: 10000, Timeout: 20 * time.Minute, ToCases: parseCardSeqCases},
+			{Name: "parse-card-wide", Module: "ParseCard", Cfg: "ParseCard_quick.cfg", Workers: 6, XmxMB: 8000, Timeout: 20 * time.Minute, ToCases: parseCardSeqCases},
+			{Name: "parse-card-single-pass", Module: "ParseCard", Cfg: "ParseCard_once.cfg", Workers: 6, XmxMB: 8000, Timeout: 20 * time.Minute, ExpectViolation: "Fixpoint"},
+			{Name: "parse-card-recount", Module: "ParseCard", Cfg: "ParseCard_recount.cfg", Workers: 4, XmxMB: 6000, Timeout: 20 * time.Minute, ExpectViolation: "ModelsPreserved"},
 			{Name: "parse-pb", Module: "ParsePB", Cfg: "ParsePB_quick.cfg", Workers: 8, XmxMB: 8000, Timeout: 20 * time.Minute, ToCases: parsePBSeqCases},
 			{Name: "parse-pb-single-pass", Module: "ParsePB", Cfg: "ParsePB_once.cfg", Workers: 8, XmxMB: 8000, Timeout: 20 * time.Minute, ExpectViolation: "Fixpoint"},
 			{Name: "pb-under-facts", Module: "AppendPB", Cfg: "AppendPB_quick.cfg", Tier: "quick", Workers: 8, XmxMB: 6000, Timeout: 20 * time.Minute, ToCases: parsePBCases},
